@@ -157,6 +157,7 @@ for nm, fn, ctx, first in (("semi_text_arm_nl_k2", "dispatch_macro_semi_term_tex
                            ("stat_opts_arm_percent_k2", "dispatch_macro_stat_opts_text_expr", "stat_opts", "%")):
     LXH(f"lx_{nm}", COMMON + ["C06", "C13"], "thorough", f"first char {first!r} (constant) + <= 1 code point", [f"Lexer::{fn}"], 2400, stubs=ARM, fixed=first, contexts=[ctx], mem=16)
 LXH("lx_eval_string_k3", COMMON + ["C06", "C08", "C13"], "thorough", "<= 3 code points; flags, pnl symbolic", ["Lexer::lex_macro_string_in_macro_eval_context"], 3000, stubs=XID + NUMS + ["macro::is_macro_stat -> arbitrary bool (phf lookup)"], contexts=["eval"], mem=20)
+LXH("lx_eval_string_lite_n3", COMMON + ["C06", "C13"], "quick", "exactly 3 ASCII characters at constant byte positions; flags constant (%if-like: ends at ';'), depth 0; numeric parsers answer None", ["Lexer::lex_macro_string_in_macro_eval_context"], 2400, stubs=XID + ["numeric::try_parse_decimal / try_parse_hex_integer -> None (operands stay text; numeric recognition is lx_eval_string_k2/k3)", "macro::is_macro_stat -> arbitrary bool (phf lookup)"], contexts=["eval"], mem=16)
 LXH("lx_eval_string_k2", COMMON + ["C06", "C08", "C13"], "thorough", "<= 2 code points; flags, pnl symbolic", ["Lexer::lex_macro_string_in_macro_eval_context"], 1500, stubs=XID + NUMS + ["macro::is_macro_stat -> arbitrary bool (phf lookup)"], contexts=["eval"], mem=16)
 DEAD = ["sub-lexers of other first-character arms -> unreachable"]
 LXH("lx_default_star", COMMON + ["C06", "C11"], "quick", "'*' + <= 2 code points; macro nesting 0/1, pending flag symbolic", ["Lexer::dispatch_mode_default", "Lexer::lex_symbols", "Lexer::lex_predicted_comment", "Lexer::rollback"], 900, stubs=DEAD + XID, fixed="*", contexts=["default", "in_macro"])
@@ -263,7 +264,7 @@ COST = {
     "lx_new_bom": 30, "lx_semi_text_arm_semi": 35, "lx_stat_opts_arm_assign": 35, "lx_eval_string_k2": 600, "lx_default_star": 78, "lx_default_symbol": 103,
     "mac_mnemonic_case_and_shape": 27, "sep_predicate_spec": 20, "mac_is_macro_amp_spec": 25, "flags_roundtrip": 20, "num_int_spec_n3": 48, "num_hex_spec_n3": 300,
     "lx_arg_or_value_first_": 36, "lx_arg_or_value_named_": 60, "lx_arg_or_value_named_percent": 98, "lx_arg_or_value_named_mcomment": 84, "lx_arg_value_classifier": 176, "lx_char_format_k5": 186,
-    "lx_default_classifier": 90, "lx_double_quoted_literal_direct": 43, "lx_eval_dispatch_ops": 104, "lx_eval_percent_op": 143, "lx_identifier_k4": 98,
+    "lx_default_classifier": 90, "lx_double_quoted_literal_direct": 43, "lx_eval_dispatch_ops": 104, "lx_eval_string_lite_n3": 450, "lx_eval_percent_op": 143, "lx_identifier_k4": 98,
     "lx_macro_call_k3": 99, "lx_macro_def_args": 59, "lx_macro_do_arms": 146, "lx_macro_identifier_k4": 100, "lx_macro_local_global_arms": 36,
     "lx_maybe_arg_assign": 55, "lx_maybe_tail_arg": 21, "lx_name_expr_arms": 69, "lx_semi_text_classifier": 172, "lx_stat_opts_classifier": 168,
     "lx_str_call_classifier": 182, "lx_datalines_ascii_n1": 40, "lx_str_expr_start": 29, "lx_symbols_table": 93, "lx_unterminated_str_direct": 39,
@@ -297,7 +298,7 @@ PRIMARY = [
     ("lx_numeric_literal", ["C08", "C16", "C11"]), ("lx_new_bom", ["C17", "C02", "C15", "C03"]),
     ("lx_semi_text_arm_semi", ["C14"]), ("lx_stat_opts_arm_assign", ["C06"]),
     ("lx_default_star", ["C11", "C01"]), ("lx_default_symbol", ["C11"]),
-    ("lx_eval_dispatch_ops", ["C13", "C16", "C06", "C01"]), ("lx_eval_percent_op", ["C13", "C06"]),
+    ("lx_eval_dispatch_ops", ["C13", "C16", "C06", "C01"]), ("lx_eval_string_lite_n3", ["C13", "C06"]), ("lx_eval_percent_op", ["C13", "C06"]),
     ("lx_arg_or_value_", ["C13", "C01", "C09"]), ("lx_maybe_arg_assign", ["C13", "C02", "C04", "C01"]), ("lx_maybe_tail_arg", ["C13", "C14"]),
     ("lx_macro_def_args", ["C13", "C14", "C09"]), ("lx_unterminated_str_direct", ["C10", "C07", "C09"]), ("lx_double_quoted_literal_direct", ["C07", "C10", "C16", "C11", "C06"]),
     ("lx_str_expr_start", ["C10"]), ("lx_identifier_k4", ["C16", "C06", "C11"]), ("lx_macro_identifier_k4", ["C16", "C06", "C03"]),
